@@ -25,6 +25,7 @@ func init() {
 	ruleText["R03.2"] = "in a case of a switch over reflect kinds, go/constant accessors are those of the case's kinds: Int64Val (Int*), Uint64Val (Uint*), Float32Val (Float32, Complex64), Float64Val (Float64, Complex128), BoolVal (Bool), StringVal (String); a complex case reads Real and Imag"
 	ruleText["R03.3"] = "the integer width table has an entry for every integer kind equal to 8*Sizeof(kind) of the analysed configuration"
 	ruleText["R03.4"] = "in the function deciding whether a constant is representable, the case of signed kinds bounds the value with width-1 magnitude bits and cannot reach the full-width comparison used for unsigned kinds"
+	ruleText["R03.8"] = "in the cases of the representability function that round through constant.Float32Val/Float64Val (float and complex kinds), every return that is not the constant false derives its value from math.IsInf"
 	ruleText["R03.7"] = "no assignment in package interp has the form *p = v with p of type *itype: a node's type is changed by replacing the pointer, never by overwriting the shared type object"
 	ruleText["R03.6"] = "in the AST builder, the value of an INT, FLOAT, IMAG or STRING literal is constant.MakeFromLiteral(lit.Value, lit.Kind, 0) on every path (go/constant's parser defines the exact value of a literal)"
 	ruleText["R03.5"] = "every function assigning scope.iota does so in an if/else that resets it to 0 when the spec is the last child of its declaration and increments it otherwise; all such sites use the same condition"
@@ -44,6 +45,7 @@ func runC03(c *Config, r *Report) {
 	c03R2(ic, r)
 	c03R3(ic, r)
 	c03R4(ic, r)
+	c03R8(ic, r)
 	c03R5(ic, r)
 	c03R6(ic, r)
 	c03R7(ic, r)
@@ -742,6 +744,46 @@ func c03R5(ic *IC, r *Report) {
 				okAll, why = false, "the reset condition "+types.ExprString(ifs.Cond)+" is not 'position == len(children)-1' (last spec of the declaration)"
 			}
 			condText = types.ExprString(ifs.Cond)
+			// every spec advances iota, also a blank one: inside the block holding the if/else
+			// no statement before it leaves the block (continue, return, goto, break)
+			for i := len(path) - 1; i > 0; i-- {
+				if path[i] != ast.Node(ifs) {
+					continue
+				}
+				blk, ok := path[i-1].(*ast.BlockStmt)
+				if !ok {
+					break
+				}
+				for _, st := range blk.List {
+					if st == ast.Stmt(ifs) {
+						break
+					}
+					depth := 0
+					var visit func(m ast.Node) bool
+					visit = func(m ast.Node) bool {
+						switch x := m.(type) {
+						case *ast.FuncLit:
+							return false
+						case *ast.ForStmt, *ast.RangeStmt, *ast.SwitchStmt, *ast.TypeSwitchStmt, *ast.SelectStmt:
+							depth++
+							for _, c := range childrenOf(m) {
+								ast.Inspect(c, visit)
+							}
+							depth--
+							return false
+						case *ast.ReturnStmt:
+							okAll, why = false, "a return at "+ic.pos(x.Pos())+" leaves the constant specification before scope.iota is advanced"
+						case *ast.BranchStmt:
+							if x.Tok == token.GOTO || x.Label != nil || x.Tok == token.CONTINUE && depth == 0 || x.Tok == token.BREAK && depth == 0 {
+								okAll, why = false, "a "+x.Tok.String()+" at "+ic.pos(x.Pos())+" leaves the constant specification before scope.iota is advanced (a blank or otherwise special constant still counts: const ( A = iota; _; C ) gives C == 2)"
+							}
+						}
+						return true
+					}
+					ast.Inspect(st, visit)
+				}
+				break
+			}
 		}
 		conds[name] = condText
 		r.Check(okAll, "R03.5", name+"/iota", ic.pos(sites[0].Pos()), "reset on the last spec, incremented otherwise: "+condText, name+": "+why+": iota takes wrong values in const blocks")
@@ -893,4 +935,97 @@ func c03R7(ic *IC, r *Report) {
 	if bad == 0 {
 		r.Pass("R03.7", "itype/never-overwritten-in-place", "", fmt.Sprintf("%d files of package interp, no store of the form *p = v with p of type *itype (positive control matched)", nFiles))
 	}
+}
+
+// c03R8: a constant is representable in a floating-point (or complex) type when, rounded to
+// that type, it does not overflow to an infinity. In the representability function, inside the
+// cases whose body rounds through go/constant's Float32Val/Float64Val, every return that can
+// accept the constant derives its verdict from math.IsInf applied to the rounded value: an
+// accepting return that bypasses the rounding (a shortcut on the magnitude of an integer
+// constant, for instance) decides on a bound the checker cannot confirm and is reported.
+func c03R8(ic *IC, r *Report) {
+	var fi *FuncInfo
+	for _, name := range sortedKeys(ic.F) {
+		f := ic.F[name]
+		if f.Decl.Body == nil || f.Obj == nil {
+			continue
+		}
+		sig := f.Obj.Type().(*types.Signature)
+		if sig.Params().Len() == 2 && sig.Results().Len() == 1 &&
+			types.TypeString(sig.Params().At(0).Type(), nil) == "go/constant.Value" &&
+			types.TypeString(sig.Params().At(1).Type(), nil) == "reflect.Type" &&
+			types.Identical(sig.Results().At(0).Type(), types.Typ[types.Bool]) {
+			fi = f
+		}
+	}
+	if fi == nil {
+		r.Errorf("anchor not resolved: representability function (constant.Value, reflect.Type) bool")
+		return
+	}
+	name := funcName(fi.Decl)
+	info := ic.Info
+	n := 0
+	ast.Inspect(fi.Decl.Body, func(m ast.Node) bool {
+		sw, ok := m.(*ast.SwitchStmt)
+		if !ok || sw.Tag != nil {
+			return true
+		}
+		for _, st := range sw.Body.List {
+			cc := st.(*ast.CaseClause)
+			if len(cc.List) != 1 {
+				continue
+			}
+			body := &ast.BlockStmt{List: cc.Body, Lbrace: cc.Colon, Rbrace: cc.End()}
+			if len(callsIn(info, body, true, "go/constant.Float32Val", "go/constant.Float64Val")) == 0 {
+				continue
+			}
+			n++
+			label := types.ExprString(cc.List[0])
+			if c, ok := unparen(cc.List[0]).(*ast.CallExpr); ok {
+				if f, ok := calleeOf(info, c).(*types.Func); ok {
+					label = f.Name()
+				}
+			}
+			var bad []string
+			ast.Inspect(body, func(k ast.Node) bool {
+				if _, ok := k.(*ast.FuncLit); ok {
+					return false
+				}
+				rs, ok := k.(*ast.ReturnStmt)
+				if !ok || len(rs.Results) != 1 {
+					return true
+				}
+				if tv, ok := info.Types[rs.Results[0]]; ok && tv.Value != nil && tv.Value.Kind() == constant.Bool && !constant.BoolVal(tv.Value) {
+					return true
+				}
+				if len(callsIn(info, rs.Results[0], true, "math.IsInf")) == 0 {
+					bad = append(bad, "return "+types.ExprString(rs.Results[0])+" at "+ic.pos(rs.Pos()))
+				}
+				return true
+			})
+			r.Check(len(bad) == 0, "R03.8", name+"/"+label+"/verdict-from-the-rounded-value", ic.pos(cc.Pos()), "every accepting return tests the rounded value for infinity",
+				"in the "+label+" case of "+name+", "+strings.Join(bad, ", ")+" accepts the constant without rounding it to the target type (Float32Val/Float64Val) and testing the result with math.IsInf: the bound it relies on is not the type's (an integer of 128 bits exceeds MaxFloat32 although 2^127 does not), so an overflowing constant is accepted and silently becomes +Inf")
+		}
+		return true
+	})
+	if n < 2 {
+		r.Errorf("R03.8: %d cases rounding through Float32Val/Float64Val found in %s; the float and the complex case are expected", n, name)
+	}
+}
+
+// childrenOf returns the direct child nodes of n.
+func childrenOf(n ast.Node) []ast.Node {
+	var out []ast.Node
+	first := true
+	ast.Inspect(n, func(m ast.Node) bool {
+		if first {
+			first = false
+			return true
+		}
+		if m != nil {
+			out = append(out, m)
+		}
+		return false
+	})
+	return out
 }
